@@ -194,13 +194,17 @@ func c16Stores(c *Ctx, a *sketchAnchors) {
 				})
 				if m.Op == "field" && m.Args[0].isParam(0) && fromRange &&
 					isTimesW(v, func(t *Term) bool {
-						return t.Op == "lookup" && t.Args[0].Key() == m.Key() && t.Args[1].Key() == k.Key()
+						// the entry's own weight: counts[k], or the value of the same range step
+						if t.Op == "lookup" && t.Args[0].Key() == m.Key() && t.Args[1].Key() == k.Key() {
+							return true
+						}
+						return t.Op == "extract" && t.Sym == "2" && k.Op == "extract" && k.Sym == "1" && sameVal(t.Args[0], k.Args[0])
 					}, isW) {
 					ok = true
 				}
 			}
 		}
-		c.R.check(ok, rule, "SparseStore.Reweight/map-loop", shortFn(f), c.fpos(f), "for k := range counts { counts[k] *= w }", found)
+		c.R.check(ok, rule, "SparseStore.Reweight/map-loop", shortFn(f), c.fpos(f), "for k := range counts { counts[k] *= w } (or `for k, v := range counts { counts[k] = v*w }`)", found)
 	}
 	// ---- paginated
 	if pr.err == "" {
